@@ -917,3 +917,10 @@ M("C09.counter_increment_by_stores", ["C09"], "batcher/src/internal_metrics.rs",
 M("C09.queue_length_reports_capacity_hint", ["C09"], "batcher/src/lib.rs",
   "        let queue_length = { self.shared.state.lock().unwrap().next_batch.channel.len() };",
   "        let queue_length = { self.shared.state.lock().unwrap().next_batch.watchers.on_take.len() };", "C09.R6:queue_length")
+
+M("C12.grpc_len_little_endian_slip", ["C12"], "emitter/otlp/src/client.rs",
+  "                                    .with_content_frame([0, len[0], len[1], len[2], len[3]])",
+  "                                    .with_content_frame([0, len[3], len[2], len[1], len[0]])", "C12.R7")
+M("C12.grpc_compressed_flag_unset", ["C12"], "emitter/otlp/src/client.rs",
+  "                                    .with_content_frame([1, len[0], len[1], len[2], len[3]])",
+  "                                    .with_content_frame([0, len[0], len[1], len[2], len[3]])", "C12.R7")
